@@ -168,6 +168,44 @@ mut("c13-lru-peek-negative-control", ["C13", "C14"], CORE,
     "        // LRU updated here\n        let topic = topic_alias_send.get(topic_alias)?;", "        // LRU updated here\n        let topic = topic_alias_send.peek(topic_alias)?;",
     note="NEGATIVE CONTROL: the LRU order is not refreshed on use; a different eviction victim is still correct for the receiver - no check may alarm")
 
+# ---- second batch
+mut("c10-receive-maximum-survives", ["C10", "C12"], CORE,
+    "        self.publish_send_max = None;\n        self.publish_recv_max = None;\n        self.publish_send_count = 0;",
+    "        self.publish_recv_max = None;\n        self.publish_send_count = 0;",
+    note="the peer's Receive Maximum of the previous connection stays in force when the next CONNACK / CONNECT announces none")
+mut("c10-server-keep-alive-survives", ["C10", "C15"], CORE,
+    "        self.pingreq_keep_alive_ms = 0;\n        self.pingreq_server_keep_alive_ms = None;",
+    "        self.pingreq_keep_alive_ms = 0;",
+    note="Server Keep Alive of the previous connection overrides the next CONNECT's keep alive")
+mut("c10-recv-size-limit-survives", ["C10", "C14"], CORE,
+    "        self.maximum_packet_size_send = MQTT_PACKET_SIZE_NO_LIMIT;\n        self.maximum_packet_size_recv = MQTT_PACKET_SIZE_NO_LIMIT;\n\n        // Set status to disconnected",
+    "        self.maximum_packet_size_send = MQTT_PACKET_SIZE_NO_LIMIT;\n\n        // Set status to disconnected",
+    note="the locally announced Maximum Packet Size of the previous connection is still enforced on the next one")
+mut("c10-any-role-keeps-side", ["C10", "C15", "C17"], CORE,
+    "        self.pid_unsuback.clear();\n        self.is_client = is_client;",
+    "        self.pid_unsuback.clear();\n        self.is_client |= is_client;",
+    note="a connection of role Any that once acted as a client keeps client timer behaviour when it later accepts a CONNECT")
+mut("c09-error-without-reset", ["C09", "C05"], "src/mqtt/connection/packet_builder.rs",
+    "                    if self.multiplier == 128 * 128 * 128 && (encoded_byte & 0x80) != 0 {\n                        self.reset();",
+    "                    if self.multiplier == 128 * 128 * 128 && (encoded_byte & 0x80) != 0 {",
+    note="an over-long Remaining Length is reported but the builder is not reset: framing does not resume at the next byte")
+mut("c09-offset-not-reset", ["C09", "C01"], "src/mqtt/connection/packet_builder.rs",
+    "                            self.raw_buf = Some(Vec::with_capacity(self.remaining_length));\n                            self.raw_buf_offset = 0;",
+    "                            self.raw_buf = Some(Vec::with_capacity(self.remaining_length));",
+    note="(expected equivalent: reset() already zeroes the offset) NEGATIVE CONTROL - no check may alarm")
+mut("c11-auth-any-state", ["C11"], CORE,
+    "        if self.status == ConnectionStatus::Disconnected {\n            return vec![GenericEvent::NotifyError(MqttError::PacketNotAllowedToSend)];\n        }\n\n        let mut events = Vec::new();\n        events.push(GenericEvent::RequestSendPacket {\n            packet: packet.into(),\n            release_packet_id_if_send_error: None,\n        });\n        self.send_post_process(&mut events);\n\n        events\n    }\n\n    fn send_post_process",
+    "        let mut events = Vec::new();\n        events.push(GenericEvent::RequestSendPacket {\n            packet: packet.into(),\n            release_packet_id_if_send_error: None,\n        });\n        self.send_post_process(&mut events);\n\n        events\n    }\n\n    fn send_post_process",
+    note="AUTH may be sent while disconnected")
+mut("c06-oversize-drop-keeps-pubrec-set", ["C06", "C08", "C14"], CORE,
+    "                self.pid_puback.remove(&packet_id);\n                self.pid_pubrec.remove(&packet_id);\n                self.pid_pubcomp.remove(&packet_id);",
+    "                self.pid_puback.remove(&packet_id);\n                self.pid_pubcomp.remove(&packet_id);",
+    note="an oversize QoS 2 PUBLISH dropped on resume keeps waiting for PUBREC: a late PUBREC is then 'matching'")
+mut("c12-resend-count-off-by-one", ["C12", "C08"], CORE,
+    "            self.publish_send_count = resent.min(u16::MAX as usize) as u16;",
+    "            self.publish_send_count = resent.saturating_sub(1).min(u16::MAX as usize) as u16;",
+    note="one retransmitted packet is not counted against Receive Maximum")
+
 ROOT = "/tmp/mutants-scratch"
 REPO = f"{ROOT}/repo"
 MC = f"{ROOT}/mc"
@@ -237,6 +275,15 @@ def main():
         sh("git checkout -- .", cwd=REPO)
         rows.append((m["name"], suite, "caught by: " + ("; ".join(caught) if caught else "-") + (" | silent: " + ",".join(silent) if silent else ""), m["note"]))
         print(rows[-1], flush=True)
+    jp = "/verif/mutants/results.json"
+    allrows = json.load(open(jp)) if os.path.exists(jp) else {}
+    for name, suite, res, note in rows:
+        if suite == "not run" and name in allrows and allrows[name][0] != "not run":
+            suite = allrows[name][0] + " (earlier run)"
+        allrows[name] = [suite, res, note]
+    json.dump(allrows, open(jp, "w"), indent=1)
+    order = [m["name"] for m in M]
+    rows = [(n, *allrows[n]) for n in order if n in allrows]
     with open("/verif/mutants/RESULTS.md", "w") as f:
         f.write("# Own detection demonstrations (tools/mutants.py)\n\nEach row: a small edit of /repo applied in an isolated scratch copy; result of the repository's own suite with the edit; which quick checks report it.\n\n| mutant | what | repository suite | checks |\n|---|---|---|---|\n")
         for name, suite, res, note in rows:
